@@ -234,11 +234,11 @@ func judge(c *core.Ctx, b builder, s shape, pl kmip.OperationPayload, err error,
 		txt := err.Error()
 		c.Count("failed_item_errors_inspected", 1)
 		missing := []string{}
-		if n := ttlv.EnumName(kmip.TagResultStatus, uint32(s.status)); n != "" && !strings.Contains(txt, n) {
-			missing = append(missing, "status "+n)
+		if !carries(txt, kmip.TagResultStatus, uint32(s.status)) {
+			missing = append(missing, fmt.Sprintf("status %#x", uint32(s.status)))
 		}
-		if n := ttlv.EnumName(kmip.TagResultReason, uint32(s.reason)); n != "" && !strings.Contains(txt, n) {
-			missing = append(missing, "reason "+n)
+		if s.reason != 0 && !carries(txt, kmip.TagResultReason, uint32(s.reason)) {
+			missing = append(missing, fmt.Sprintf("reason %#x", uint32(s.reason)))
 		}
 		if !strings.Contains(txt, serverMessage) {
 			missing = append(missing, "message")
@@ -247,6 +247,16 @@ func judge(c *core.Ctx, b builder, s shape, pl kmip.OperationPayload, err error,
 			c.Violation("C12:error-lacks-server-info:"+kindOf(b), fmt.Sprintf("the error %q does not carry the server's %s (%s)", txt, strings.Join(missing, ", "), label), det)
 		}
 	}
+}
+
+// carries: the text names the enumeration value - by its registered name, or, for a value without a name (vendor
+// specific, unknown to this version), by its number in hexadecimal or decimal.
+func carries(txt string, tag int, v uint32) bool {
+	if n := ttlv.EnumName(tag, v); n != "" {
+		return strings.Contains(txt, n)
+	}
+	up := strings.ToUpper(txt)
+	return strings.Contains(up, fmt.Sprintf("%X", v)) || strings.Contains(txt, fmt.Sprint(v))
 }
 
 // decodeFailure: shapes whose payload cannot be decoded under the announced operation (the
@@ -566,11 +576,11 @@ func negotiationCase(c *core.Ctx, r *core.Rand, i int) {
 		txt := err.Error()
 		c.Count("failed_discovery_errors_inspected", 1)
 		missing := []string{}
-		if n := ttlv.EnumName(kmip.TagResultStatus, uint32(s.status)); n != "" && !strings.Contains(txt, n) {
-			missing = append(missing, "status "+n)
+		if !carries(txt, kmip.TagResultStatus, uint32(s.status)) {
+			missing = append(missing, fmt.Sprintf("status %#x", uint32(s.status)))
 		}
-		if n := ttlv.EnumName(kmip.TagResultReason, uint32(s.reason)); n != "" && !strings.Contains(txt, n) {
-			missing = append(missing, "reason "+n)
+		if s.reason != 0 && !carries(txt, kmip.TagResultReason, uint32(s.reason)) {
+			missing = append(missing, fmt.Sprintf("reason %#x", uint32(s.reason)))
 		}
 		if !strings.Contains(txt, serverMessage) {
 			missing = append(missing, "message")
